@@ -221,6 +221,9 @@ def _is_offset_ratio_test(c, em):
         for side in (c.a[1], c.a[2]):
             if side.op == "sub" and tm.is_const(side.a[1], "offset_ratio"):
                 return True
+            # the value setdefault / get returns is that same entry
+            if side.op == "call" and call_name(side) in (".setdefault", ".get") and len(side.a[1]) >= 2 and tm.is_const(side.a[1][1], "offset_ratio") and side.a[1][0].op in ("param", "upd", "ite") and em.kwname in tm.params_of(side.a[1][0]):
+                return True
     return False
 
 
